@@ -4,6 +4,9 @@ go 1.26
 
 require github.com/biscuit-auth/biscuit-go/v2 v2.0.0
 
-require google.golang.org/protobuf v1.34.2 // indirect
+require (
+	github.com/alecthomas/participle/v2 v2.1.1 // indirect
+	google.golang.org/protobuf v1.34.2 // indirect
+)
 
 replace github.com/biscuit-auth/biscuit-go/v2 => /repo
